@@ -31,6 +31,8 @@ Statement level (`normalise_function`):
   N9  `for T in IT: X.append(E)` / `X += [E]` (optionally under one `if c:`) -> `X += [E for T in IT if c]` when X does
       not occur in E, IT, c and T is dead after the loop (loop-local call-free temporaries bound once and dead after
       the loop are substituted into E first);  `X = []` directly followed by `X += [comp]` -> `X = [comp]`
+  N11 the blocks of a `try` statement (body, handlers, else, finally) are normalised with the rewrites above that are allowed
+      in a function with `try`
   N10 a temporary `t = E` (E call-free apart from len/range/str/int/np.arange/np.flip, bound once, read only in the
       directly following simple statement or in the header of the directly following compound statement) inlined
 
@@ -507,6 +509,19 @@ class _Norm(object):
         if isinstance(st, ast.With):
             new = copy.copy(st)
             new.body = self.block(st.body) or [ast.Pass()]
+            return [new]
+        if isinstance(st, ast.Try):
+            # N11: the blocks of a try statement are normalised in place (a function with a `try` only gets the rewrites that
+            # keep every evaluation where it is: N1, N3 chained, N4, N5, N6, N7)
+            new = copy.copy(st)
+            new.body = self.block(st.body) or [ast.Pass()]
+            new.handlers = []
+            for h in st.handlers:
+                nh = copy.copy(h)
+                nh.body = self.block(h.body) or [ast.Pass()]
+                new.handlers.append(nh)
+            new.orelse = self.block(st.orelse)
+            new.finalbody = self.block(st.finalbody)
             return [new]
         return [st]
 
